@@ -174,6 +174,7 @@ def method(name, inp, out, *, cs=False, ss=False, http=None, sigs=(), lro=None,
         oi.response_type, oi.metadata_type = lro
     if routing is not None:
         rr = m.options.Extensions[routing_pb2.routing]
+        rr.SetInParent()        # an empty annotation is legal (AIP-4222: "no routing headers should be generated")
         for fld, tmpl in routing:
             rr.routing_parameters.add(field=fld, path_template=tmpl)
     if deprecated:
